@@ -28,6 +28,7 @@ type Obligation struct {
 	ExpectSat bool
 	raw       string // for lemma obligations: complete query body
 	Clause    *Clause
+	Pos       string
 }
 
 // VC holds the verification conditions of one function.
@@ -68,6 +69,9 @@ type VC struct {
 	specRecorder func(string) string
 	curSpec      *specInfo
 	nilChecked   map[string][]*ssa.BasicBlock
+	curIns       ssa.Instruction
+	retNames     map[*ssa.Return]string
+	retSeen      map[string]int
 }
 
 type loopInfo struct {
@@ -107,9 +111,20 @@ func (vc *VC) declareRaw(key, text string) {
 	vc.decls = append(vc.decls, text)
 }
 
-// define adds a global definitional fact for a fresh constant.
+// define adds a definitional fact for a fresh constant, positioned at the
+// current program point (it is only needed by obligations downstream).
 func (vc *VC) define(c, term string) {
-	vc.facts = append(vc.facts, Fact{-1, 0, sx("=", c, term)})
+	vc.seq++
+	vc.facts = append(vc.facts, Fact{vc.curBlk, vc.seq, sx("=", c, term)})
+}
+
+// local adds an unguarded fact about symbols created at the current point.
+func (vc *VC) local(text string) {
+	if text == "true" {
+		return
+	}
+	vc.seq++
+	vc.facts = append(vc.facts, Fact{vc.curBlk, vc.seq, text})
 }
 
 func (vc *VC) global(text string) {
@@ -128,14 +143,74 @@ func (vc *VC) assume(text string) {
 	vc.facts = append(vc.facts, Fact{vc.curBlk, vc.seq, implies(vc.curReach, text)})
 }
 
+// splitAnd splits a top-level (and ...) s-expression into its conjuncts.
+func splitAnd(g string) []string {
+	if !strings.HasPrefix(g, "(and ") {
+		return []string{g}
+	}
+	body := g[5 : len(g)-1]
+	var parts []string
+	depth := 0
+	start := 0
+	inBar := false
+	for i := 0; i < len(body); i++ {
+		c := body[i]
+		if c == '|' {
+			inBar = !inBar
+		}
+		if inBar {
+			continue
+		}
+		switch c {
+		case '(':
+			depth++
+		case ')':
+			depth--
+		case ' ':
+			if depth == 0 {
+				if i > start {
+					parts = append(parts, body[start:i])
+				}
+				start = i + 1
+			}
+		}
+	}
+	if start < len(body) {
+		parts = append(parts, body[start:])
+	}
+	var out []string
+	for _, p := range parts {
+		out = append(out, splitAnd(p)...)
+	}
+	return out
+}
+
 func (vc *VC) oblige(class, name string, props []string, goal string, cl *Clause) *Obligation {
+	if class == "post" || class == "inv-init" || class == "inv-pres" || class == "pre" {
+		if parts := splitAnd(goal); len(parts) > 1 {
+			var last *Obligation
+			for i, p := range parts {
+				last = vc.oblige1(class, fmt.Sprintf("%s&%d", name, i), props, p, cl)
+			}
+			return last
+		}
+	}
+	return vc.oblige1(class, name, props, goal, cl)
+}
+
+func (vc *VC) oblige1(class, name string, props []string, goal string, cl *Clause) *Obligation {
 	vc.seq++
 	key := class + ":" + name
 	vc.counters[key]++
 	if n := vc.counters[key]; n > 1 {
 		name = fmt.Sprintf("%s#%d", name, n)
 	}
-	ob := &Obligation{Name: vc.fn.RelString(vc.fn.Pkg.Pkg) + "/" + class + ":" + name, Class: class, Props: props, Func: vc.fn.String(), vc: vc, blk: vc.curBlk, seq: vc.seq, reach: vc.curReach, goal: goal, Clause: cl}
+	pos := ""
+	if vc.curIns != nil && vc.curIns.Pos().IsValid() {
+		p := vc.prog.fset.Position(vc.curIns.Pos())
+		pos = fmt.Sprintf("%s:%d", p.Filename, p.Line)
+	}
+	ob := &Obligation{Pos: pos, Name: vc.fn.RelString(vc.fn.Pkg.Pkg) + "/" + class + ":" + name, Class: class, Props: props, Func: vc.fn.String(), vc: vc, blk: vc.curBlk, seq: vc.seq, reach: vc.curReach, goal: goal, Clause: cl}
 	if goal == "true" {
 		return ob // trivially discharged, not recorded
 	}
@@ -417,7 +492,9 @@ func (vc *VC) execBlock(b *ssa.BasicBlock, initial *State) {
 			si := succIndex(p, b, nth)
 			c := and(vc.reachB[p], vc.edgeCond(p, si))
 			e := vc.fresh(fmt.Sprintf("edge_%d_%d", p.Index, b.Index), "Bool")
+			vc.curBlk = vc.topo[p] // the edge condition belongs to the predecessor
 			vc.define(e, c)
+			vc.curBlk = bi
 			ins = append(ins, inEdge{p, e, vc.out[p]})
 		}
 		var conds []string
@@ -530,7 +607,7 @@ func (vc *VC) merge(b *ssa.BasicBlock, first *State, get func(i int) (*State, st
 		nv.Glob = ""
 		nv.S = vc.fresh("m_"+a.Comment, sortOfKind(v.K))
 		for i, s := range states {
-			vc.global(implies(conds[i], eq(nv.S, s.cells[a].S)))
+			vc.local(implies(conds[i], eq(nv.S, s.cells[a].S)))
 		}
 		st.cells[a] = nv
 	}
@@ -560,7 +637,7 @@ func (vc *VC) merge(b *ssa.BasicBlock, first *State, get func(i int) (*State, st
 		}
 		c := vc.fresh("m_"+strings.Trim(k, "|"), vc.compSort(k))
 		for i, s := range states {
-			vc.global(implies(conds[i], eq(c, vc.heap(s, k))))
+			vc.local(implies(conds[i], eq(c, vc.heap(s, k))))
 		}
 		st.heaps[k] = c
 	}
@@ -576,7 +653,7 @@ func (vc *VC) merge(b *ssa.BasicBlock, first *State, get func(i int) (*State, st
 			c := vc.fresh("m_"+k, vc.pseudoSort(k))
 			for i, s := range states {
 				if t, ok := s.pseudo[k]; ok {
-					vc.global(implies(conds[i], eq(c, t)))
+					vc.local(implies(conds[i], eq(c, t)))
 				}
 			}
 			st.pseudo[k] = c
@@ -592,7 +669,7 @@ func (vc *VC) merge(b *ssa.BasicBlock, first *State, get func(i int) (*State, st
 	if !sameA {
 		c := vc.fresh("m_alloc", "Int")
 		for i, s := range states {
-			vc.global(implies(conds[i], eq(c, s.alloc)))
+			vc.local(implies(conds[i], eq(c, s.alloc)))
 		}
 		st.alloc = c
 	}
@@ -665,7 +742,7 @@ func (vc *VC) havocLoop(li *loopInfo, st *State) {
 	pre := st.clone()
 	if li.allocs {
 		na := vc.fresh("h_alloc", "Int")
-		vc.global(sx("<=", st.alloc, na))
+		vc.local(sx("<=", st.alloc, na))
 		st.alloc = na
 	}
 	for a := range li.modCells {
@@ -679,7 +756,7 @@ func (vc *VC) havocLoop(li *loopInfo, st *State) {
 			nv := Val{K: v.K, T: v.T}
 			nv.S = vc.fresh("h_"+a.Comment, sortOfKind(v.K))
 			st.cells[a] = nv
-			vc.global(implies(vc.reachB[li.header], vc.typeAssume(nv, st.alloc)))
+			vc.local(implies(vc.reachB[li.header], vc.typeAssume(nv, st.alloc)))
 		}
 	}
 	var comps []string
@@ -694,6 +771,9 @@ func (vc *VC) havocLoop(li *loopInfo, st *State) {
 		old := vc.heap(st, c)
 		nc := vc.fresh("h_"+strings.Trim(c, "|"), vc.compSort(c))
 		st.heaps[c] = nc
+		if cl := closureFact(nc, vc.compSort(c), st.alloc); cl != "" {
+			vc.local(cl)
+		}
 		// free loop frame: locations outside the function's frame that
 		// existed at loop entry are unchanged (justified by the per-store
 		// frame obligations).
@@ -714,7 +794,7 @@ func (vc *VC) loopFrame(li *loopInfo, comp, before, after string, pre *State) {
 		return
 	}
 	body := implies(and(sx("<", sx("rootOf", "a!"), "|alloc@0|"), not(foot)), eq(sx("select", after, "a!"), sx("select", vc.entryHeap(comp), "a!")))
-	vc.global(fmt.Sprintf("(forall ((a! Addr)) (! %s :pattern ((select %s a!))))", body, after))
+	vc.local(fmt.Sprintf("(forall ((a! Addr)) (! %s :pattern ((select %s a!))))", body, after))
 	// additionally: anything allocated before the loop and not written is
 	// not expressible without a write set; left to explicit invariants.
 	_ = before
@@ -867,6 +947,7 @@ func (vc *VC) site(ins ssa.Instruction) string {
 }
 
 func (vc *VC) execInstr(ins ssa.Instruction, st *State) {
+	vc.curIns = ins
 	switch x := ins.(type) {
 	case *ssa.DebugRef, *ssa.RunDefers, *ssa.Jump, *ssa.If:
 		return
@@ -984,10 +1065,10 @@ func (vc *VC) zeroInit(st *State, t types.Type, a string) {
 			nc := vc.fresh(strings.Trim(comp, "|"), vc.compSort(comp))
 			st.heaps[comp] = nc
 			vc.touched[comp] = true
-			vc.global(fmt.Sprintf("(forall ((k! Int)) (! (= (select %s (elem %s k!)) %s) :pattern ((select %s (elem %s k!)))))", nc, a, vc.zero(et).S, nc, a))
-			vc.global(fmt.Sprintf("(forall ((a! Addr)) (! (=> (not (and ((_ is elem) a!) (= (epar a!) %s))) (= (select %s a!) (select %s a!))) :pattern ((select %s a!))))", a, nc, old, nc))
+			vc.local(fmt.Sprintf("(forall ((k! Int)) (! (= (select %s (elem %s k!)) %s) :pattern ((select %s (elem %s k!)))))", nc, a, vc.zero(et).S, nc, a))
+			vc.local(fmt.Sprintf("(forall ((a! Addr)) (! (=> (not (and ((_ is elem) a!) (= (epar a!) %s))) (= (select %s a!) (select %s a!))) :pattern ((select %s a!))))", a, nc, old, nc))
 		} else {
-			panic(unsupported("array of composite elements"))
+			vc.zeroArray(st, et, a)
 		}
 	default:
 		panic(unsupported("zeroInit %s", t))
@@ -1286,7 +1367,7 @@ func (vc *VC) bitop(op token.Token, a, b Val, rt types.Type, check bool) Val {
 		}
 	}
 	r := Val{K: KInt, T: rt, S: vc.fresh("bitop", "Int")}
-	vc.global(vc.typeAssume(r, "0"))
+	vc.local(vc.typeAssume(r, "0"))
 	return r
 }
 
@@ -1452,7 +1533,7 @@ func (vc *VC) execPhi(x *ssa.Phi, st *State) {
 		}
 		e := vc.edge[[2]int{p.Index*1000 + i, b.Index}]
 		i++
-		vc.global(implies(e, eq(c, vc.val(x.Edges[pi]).S)))
+		vc.local(implies(e, eq(c, vc.val(x.Edges[pi]).S)))
 	}
 	vc.regs[x] = Val{K: k, T: x.Type(), S: c}
 }
@@ -1467,10 +1548,10 @@ func (vc *VC) execConvert(x *ssa.Convert, st *State) {
 	case fk == KSlice && tk == KStr:
 		// string(b): fresh string with the bytes of b
 		s := vc.fresh(x.Name(), "Str")
-		vc.global(implies(vc.curReach, eq(sx("s_len", s), sx("slen", v.S))))
+		vc.local(implies(vc.curReach, eq(sx("s_len", s), sx("slen", v.S))))
 		et := elemTypeOf(from)
 		heap := vc.heap(st, vc.regComp(elemComp(et), "Int"))
-		vc.global(implies(vc.curReach, fmt.Sprintf("(forall ((k! Int)) (! (=> (and (<= 0 k!) (< k! (slen %s))) (= (s_at %s k!) (select %s (idx %s k!)))) :pattern ((s_at %s k!))))", v.S, s, heap, v.S, s)))
+		vc.local(implies(vc.curReach, fmt.Sprintf("(forall ((k! Int)) (! (=> (and (<= 0 k!) (< k! (slen %s))) (= (s_at %s k!) (select %s (idx %s k!)))) :pattern ((s_at %s k!))))", v.S, s, heap, v.S, s)))
 		vc.regs[x] = Val{K: KStr, T: to, S: s}
 	case fk == KStr && tk == KSlice:
 		et := elemTypeOf(to)
@@ -1484,20 +1565,20 @@ func (vc *VC) execConvert(x *ssa.Convert, st *State) {
 		nc := vc.fresh(strings.Trim(comp, "|"), vc.compSort(comp))
 		st.heaps[comp] = nc
 		vc.touched[comp] = true
-		vc.global(fmt.Sprintf("(forall ((k! Int)) (! (=> (and (<= 0 k!) (< k! (s_len %s))) (= (select %s (elem %s k!)) (s_at %s k!))) :pattern ((select %s (elem %s k!)))))", v.S, nc, arr, v.S, nc, arr))
-		vc.global(fmt.Sprintf("(forall ((a! Addr)) (! (=> (not (and ((_ is elem) a!) (= (epar a!) %s))) (= (select %s a!) (select %s a!))) :pattern ((select %s a!))))", arr, nc, old, nc))
+		vc.local(fmt.Sprintf("(forall ((k! Int)) (! (=> (and (<= 0 k!) (< k! (s_len %s))) (= (select %s (elem %s k!)) (s_at %s k!))) :pattern ((select %s (elem %s k!)))))", v.S, nc, arr, v.S, nc, arr))
+		vc.local(fmt.Sprintf("(forall ((a! Addr)) (! (=> (not (and ((_ is elem) a!) (= (epar a!) %s))) (= (select %s a!) (select %s a!))) :pattern ((select %s a!))))", arr, nc, old, nc))
 		c := vc.fresh(x.Name(), "Slice")
 		vc.define(c, sx("mk-slice", arr, "0", sx("s_len", v.S), sx("s_len", v.S)))
 		vc.regs[x] = Val{K: KSlice, T: to, S: c}
 	case fk == KInt && tk == KStr:
 		// string(rune): opaque non-empty string of 1..4 bytes
 		s := vc.fresh(x.Name(), "Str")
-		vc.global(and(sx("<=", "1", sx("s_len", s)), sx("<=", sx("s_len", s), "4")))
-		vc.global(implies(and(sx("<=", "0", v.S), sx("<", v.S, "128")), and(eq(sx("s_len", s), "1"), eq(sx("s_at", s, "0"), v.S))))
+		vc.local(and(sx("<=", "1", sx("s_len", s)), sx("<=", sx("s_len", s), "4")))
+		vc.local(implies(and(sx("<=", "0", v.S), sx("<", v.S, "128")), and(eq(sx("s_len", s), "1"), eq(sx("s_at", s, "0"), v.S))))
 		vc.regs[x] = Val{K: KStr, T: to, S: s}
 	case tk == KOpaque || fk == KOpaque:
 		r := Val{K: tk, T: to, S: vc.fresh(x.Name(), sortOfKind(tk))}
-		vc.global(vc.typeAssume(r, "0"))
+		vc.local(vc.typeAssume(r, "0"))
 		vc.regs[x] = r
 	default:
 		panic(unsupported("convert %s -> %s", from, to))
@@ -1544,17 +1625,17 @@ func rangeWithin(from, to types.Type) bool {
 func (vc *VC) execMakeInterface(x *ssa.MakeInterface, st *State) {
 	v := vc.val(x.X)
 	r := Val{K: KIface, T: x.Type(), S: vc.fresh(x.Name(), "Int")}
-	vc.global(sx("<", "0", r.S))
+	vc.local(sx("<", "0", r.S))
 	// remember the dynamic type and payload through uninterpreted functions
 	vc.declareRaw("fun:iface_tag", "(declare-fun iface_tag (Int) Int)")
-	vc.global(eq(sx("iface_tag", r.S), num(int64(vc.prog.typeTag(x.X.Type())))))
+	vc.local(eq(sx("iface_tag", r.S), num(int64(vc.prog.typeTag(x.X.Type())))))
 	if v.K == KPtr && v.Heap == "" && v.Cell == nil {
 		vc.declareRaw("fun:iface_ptr", "(declare-fun iface_ptr (Int) Addr)")
-		vc.global(eq(sx("iface_ptr", r.S), v.S))
+		vc.local(eq(sx("iface_ptr", r.S), v.S))
 	}
 	if v.K == KStr {
 		vc.declareRaw("fun:iface_str", "(declare-fun iface_str (Int) Str)")
-		vc.global(eq(sx("iface_str", r.S), v.S))
+		vc.local(eq(sx("iface_str", r.S), v.S))
 	}
 	vc.regs[x] = r
 }
@@ -1617,8 +1698,8 @@ func (vc *VC) zeroArray(st *State, et types.Type, arr string) {
 		for _, f := range c.path {
 			a = sx("fld", a, num(int64(f)))
 		}
-		vc.global(fmt.Sprintf("(forall ((k! Int)) (! (= (select %s %s) %s) :pattern ((select %s %s))))", nc, a, c.zero, nc, a))
-		vc.global(fmt.Sprintf("(forall ((a! Addr)) (! (=> (not (= (rootOf a!) (rootOf %s))) (= (select %s a!) (select %s a!))) :pattern ((select %s a!))))", arr, nc, old, nc))
+		vc.local(fmt.Sprintf("(forall ((k! Int)) (! (= (select %s %s) %s) :pattern ((select %s %s))))", nc, a, c.zero, nc, a))
+		vc.local(fmt.Sprintf("(forall ((a! Addr)) (! (=> (not (= (rootOf a!) (rootOf %s))) (= (select %s a!) (select %s a!))) :pattern ((select %s a!))))", arr, nc, old, nc))
 	}
 }
 
@@ -1647,8 +1728,8 @@ func (vc *VC) execTypeAssert(x *ssa.TypeAssert, st *State) {
 		res = vc.freshVal(x.Name(), x.AssertedType)
 		if res.K == KPtr {
 			vc.declareRaw("fun:iface_ptr", "(declare-fun iface_ptr (Int) Addr)")
-			vc.global(implies(isT, eq(res.S, sx("iface_ptr", v.S))))
-			vc.global(implies(isT, not(eq(res.S, "nil"))))
+			vc.local(implies(isT, eq(res.S, sx("iface_ptr", v.S))))
+			vc.local(implies(isT, not(eq(res.S, "nil"))))
 			vc.assume(vc.typeAssume(res, st.alloc))
 		}
 	}
@@ -1691,7 +1772,7 @@ func (vc *VC) execReturn(x *ssa.Return, st *State) {
 		} else {
 			goal = vc.evalBool(c.E, e, st, vc.entry)
 		}
-		vc.oblige("post", fmt.Sprintf("%s@ret%d", name, vc.retCount), c.Props, goal, c)
+		vc.oblige("post", fmt.Sprintf("%s@%s", name, vc.retSite(x)), c.Props, goal, c)
 	}
 }
 
@@ -1706,4 +1787,27 @@ func (vc *VC) tryEvalBool(e Expr, env *Env, st, old *State) (res string, ok bool
 		}
 	}()
 	return vc.evalBool(e, env, st, old), true
+}
+
+// retSite names a return site structurally: the label of the innermost
+// enclosing switch case (if any) plus the ordinal of the return within it,
+// otherwise the ordinal of the return in the function. Line numbers are not
+// used, so unrelated edits do not rename obligations.
+func (vc *VC) retSite(x *ssa.Return) string {
+	if s, ok := vc.retNames[x]; ok {
+		return s
+	}
+	if vc.retNames == nil {
+		vc.retNames = map[*ssa.Return]string{}
+		vc.retSeen = map[string]int{}
+	}
+	label := vc.prog.caseLabel(x.Pos())
+	key := "ret"
+	if label != "" {
+		key = "case " + label + "/ret"
+	}
+	vc.retSeen[key]++
+	name := fmt.Sprintf("%s%d", key, vc.retSeen[key])
+	vc.retNames[x] = name
+	return name
 }
